@@ -21,6 +21,8 @@ use crate::hist_sized::{counts, data_addr, peek, Kind, SizedPayload, H};
 
 pub struct SendH<P: SizedPayload>(pub H<P>);
 unsafe impl<P: SizedPayload> Send for SendH<P> {}
+// shared roots are only ever cloned through `&H` (every handle kind is Sync for Send + Sync payloads)
+unsafe impl<P: SizedPayload> Sync for SendH<P> {}
 
 #[derive(Clone, Copy, Debug, PartialEq, Eq)]
 pub enum SOp {
@@ -34,6 +36,8 @@ pub enum SOp {
     PollWrite,
     MakeMut,
     Unwrap,
+    /// clone through a shared borrow of a handle that other threads clone from concurrently
+    CloneShared,
 }
 
 #[derive(Clone, Debug)]
@@ -48,8 +52,8 @@ pub fn sprofile(prop: &str) -> SProfile {
     match prop {
         "C03" => SProfile { name: "poll-unique-then-write", ops: vec![(Read, 5), (Clone, 3), (Drop, 5), (Convert, 1), (Count, 1), (Send, 2), (Recv, 2), (PollWrite, 7), (MakeMut, 4)], rule: "C03" },
         "C08" => SProfile { name: "make_mut-vs-readers", ops: vec![(Read, 6), (Clone, 3), (Drop, 4), (Convert, 1), (Send, 1), (Recv, 1), (MakeMut, 8)], rule: "C08" },
-        "C09" => SProfile { name: "racing-unwrap", ops: vec![(Read, 4), (Clone, 2), (Drop, 4), (Convert, 1), (Send, 1), (Recv, 1), (Unwrap, 9)], rule: "C09" },
-        _ => SProfile { name: "clone-read-drop", ops: vec![(Read, 6), (Clone, 5), (Drop, 6), (Convert, 3), (Count, 2), (Send, 3), (Recv, 3)], rule: "C02" },
+        "C09" => SProfile { name: "racing-unwrap", ops: vec![(Read, 4), (Clone, 2), (CloneShared, 1), (Drop, 4), (Convert, 1), (Send, 1), (Recv, 1), (Unwrap, 9)], rule: "C09" },
+        _ => SProfile { name: "clone-read-drop", ops: vec![(Read, 6), (Clone, 4), (CloneShared, 4), (Drop, 6), (Convert, 3), (Count, 2), (Send, 3), (Recv, 3)], rule: "C02" },
     }
 }
 
@@ -96,6 +100,8 @@ struct ThreadFacts {
 }
 
 struct Shared<P: SizedPayload> {
+    /// handles owned by thread 0 for the whole run; the threads clone from them through `&`
+    roots: Vec<SendH<P>>,
     mail: Mutex<HashMap<u64, SendH<P>>>,
     next_token: Mutex<u64>,
     facts: Mutex<Vec<ThreadFacts>>,
@@ -234,6 +240,18 @@ impl<P: SizedPayload> Local<P> {
 
 fn run_thread<P: SizedPayload>(mut l: Local<P>, ops: Vec<(SOp, u8, u8)>, sh: StdArc<Shared<P>>, nthreads: usize, trace: bool) {
     for (op, a, b) in ops {
+        if op == SOp::CloneShared {
+            if l.pool.len() < 4 && !sh.roots.is_empty() {
+                let r = &sh.roots[pick(a, sh.roots.len())].0;
+                if trace {
+                    sim::log(format!("  t{} CloneShared from root {:?} (variant {})", l.tid, r.kind(), b));
+                }
+                if let Some(n) = clone_via(r, b) {
+                    l.pool.push(n);
+                }
+            }
+            continue;
+        }
         if l.pool.is_empty() && !matches!(op, SOp::Recv) {
             continue;
         }
@@ -243,6 +261,7 @@ fn run_thread<P: SizedPayload>(mut l: Local<P>, ops: Vec<(SOp, u8, u8)>, sh: Std
             sim::log(format!("  t{} {:?} slot {} {:?} (variant {})", l.tid, op, i, k, b));
         }
         match op {
+            SOp::CloneShared => {}
             SOp::Read => l.read(i),
             SOp::Clone => {
                 if l.pool.len() < 4 {
@@ -424,7 +443,16 @@ impl<P: SizedPayload> Engine for SchedEngine<P> {
         let prev = alloc::set_track(true);
         // thread 0: create the shared values and hand every thread its initial handles
         let roots: Vec<Arc<P>> = (0..nallocs).map(|k| Arc::new(P::make(100 + k as u64))).collect();
+        // the shared roots: one handle of a generated kind per allocation, alive until after the join
+        // (only in half of the cases: while they exist thread 0 is necessarily the last owner, which would
+        // hide every race between a thread's last access and another thread's final drop)
+        let shared_roots: Vec<SendH<P>> = if case.p(7) & 1 == 1 {
+            roots.iter().enumerate().map(|(k, r)| SendH(make_kind(r.clone(), case.p(6).wrapping_add(k as u8 * 37)))).collect()
+        } else {
+            vec![]
+        };
         let sh = StdArc::new(Shared::<P> {
+            roots: shared_roots,
             mail: Mutex::new(HashMap::new()),
             next_token: Mutex::new(0),
             facts: Mutex::new((0..=nthreads).map(|_| ThreadFacts::default()).collect()),
@@ -466,6 +494,16 @@ impl<P: SizedPayload> Engine for SchedEngine<P> {
         for h in leftovers {
             drop_h(h.0);
         }
+        // thread 0 releases the shared roots last (it has joined everyone)
+        let sh = match StdArc::try_unwrap(sh) {
+            Ok(mut s) => {
+                for r in s.roots.drain(..) {
+                    drop_h(r.0);
+                }
+                StdArc::new(s)
+            }
+            Err(s) => s,
+        };
         alloc::set_track(prev);
         let rep = sim::end();
         for id in tok::live_ids() {
@@ -503,6 +541,9 @@ impl<P: SizedPayload> Engine for SchedEngine<P> {
         }
         if nthreads >= 3 {
             labels.push("sched:>=3-threads");
+        }
+        if case.p(7) & 1 == 1 {
+            labels.push("sched:shared-root-handles");
         }
         if total_unwrap >= 2 {
             labels.push("sched:>=2-unwrap-attempts");
